@@ -55,6 +55,14 @@ CLAIMS = {
    technique="runtime monitoring: metamorphic comparison of Allowed verdicts (repeat, insertion order, needed-state-only, unrelated additions, AddAuthEvents sufficiency) and of a reused checker (hook VerifAllower, driven like state resolution) against fresh evaluations over generated sequences",
    text="Each C07-style case is re-evaluated under five verdict-preserving transformations, and sequences of 2-40 evaluations share one checker whose every verdict must equal the fresh one. The hook adds no logic: it forwards to newAllowerContext / update / allowed. Sampled sequences; restricted joins and provider changes are forced to occur (non-triviality rule).",
    note=TB + "Allowed on a fresh provider as reference point (decided by C07); abstains on unparsable power-levels / join-rules state."),
+ "C10": dict(level="exploration", design="§4 C10, §5.2, appendix C",
+   technique="runtime monitoring: reference-model oracle (independent v1 / v2 / v2.1 resolvers, set-based, uncached, authorising through the public Allowed on fresh providers) compared with ResolveConflictsNew on simulated room histories with forks; trace counters show which algorithm stages were exercised",
+   text="Room histories are produced by a simulator that builds every event with the real EventBuilder (auth events via AddAuthEvents, kept only if allowed in place), forks the room into 2-5 branches (nested forks included, presented in random order) and hands the branch states plus the full auth list to the resolver; the resulting event-ID set must equal the reference's. Evidence counts resolutions with conflicted power events, auth difference, conflicted subgraph (v2.1), fallback use and events failing iterative auth. Quick: versions 1, 2, 6, 10, 11, 12; thorough: every non-pseudo-ID version, longer branches (160k histories).",
+   note=TB + "the library's Allowed and StateNeededForAuth as auth primitives (C07, C09 decide them); v1 driven with one auth event per key as its resolver documents."),
+ "C11": dict(level="exploration", design="§4 C11",
+   technique="runtime monitoring: metamorphic comparison of resolution results under 13 presentations per input (repeats, permuted / rotated / reversed state sets, shuffled sets and auth lists, duplicated auth events), deprecated entry points under permutation, cross-process agreement on shared inputs, structural well-formedness monitors, and topological-order monitors for all ordering functions",
+   text="Each simulated history is resolved 14 times through ResolveConflictsNew and 11 more times through the deprecated entry points; any difference in the sorted event-ID set is a violation. Inputs of v3+ rooms generated from a shard-independent PRNG stream are resolved in all 8 child processes and the driver compares the results across processes. Results are checked for one-event-per-key, supplied-events-only, agreed keys kept and equal-sets-returned. ReverseTopologicalOrdering (by auth and by prev events), its headered variant and LineariseStateResponse are checked to return a permutation of the distinct inputs with every event after its referenced ancestors present.",
+   note=TB + "no reference model needed; v1 resolver driven as documented."),
 }
 NOT_YET = "check not built yet (work in progress; see DESIGN.md §4 for the planned monitor)"
 
